@@ -5,6 +5,10 @@
 //! Oracle: before/after snapshots of document (as sets), key store and key-id store.
 //! Workload: exhaustive fault-plan enumeration (call universe discovered by running) over a grid of
 //! documents/targets, plus seeded random generate/purge histories with random fault masks.
+//! The grid also covers: key stores whose generated public JWK carries no / a custom `kid` (the API allows both),
+//! purge targets that did not come from generate_method (JWK methods the stores do not or only half know,
+//! non-JWK methods with decodable / undecodable / custom key material — the empty fault set is a fault set too),
+//! and documents that hold a method / service / reference of ANOTHER DID with the target's fragment.
 use std::collections::{BTreeMap, BTreeSet};
 use std::future::Future;
 use std::pin::Pin;
@@ -94,6 +98,29 @@ struct Ctl {
   yield_k_delete: bool,
   yield_i_delete: bool,
   err_variant: u8,
+  kid_mode: KidMode,
+}
+
+/// What the key store does with the `kid` member of the public JWK it returns from `generate`
+/// (the JwkStorage contract leaves it to the implementation; generate_method documents both cases).
+#[derive(Clone, Debug, PartialEq, Eq)]
+enum KidMode {
+  /// whatever the in-memory store sets (the key's thumbprint)
+  Keep,
+  /// no kid member at all
+  Strip,
+  /// this text
+  Set(String),
+}
+
+impl KidMode {
+  fn class(&self) -> &'static str {
+    match self {
+      KidMode::Keep => "keep",
+      KidMode::Strip => "strip",
+      KidMode::Set(_) => "set",
+    }
+  }
 }
 
 impl Ctl {
@@ -178,7 +205,30 @@ impl JwkStorage for FaultyJwk {
       return Err(kerr(v));
     }
     let out = self.inner.generate(key_type, alg).await?;
-    self.ctl.lock().unwrap().issued.insert(out.key_id.as_str().to_owned());
+    let mode = {
+      let mut c = self.ctl.lock().unwrap();
+      c.issued.insert(out.key_id.as_str().to_owned());
+      c.kid_mode.clone()
+    };
+    let out = match mode {
+      KidMode::Keep => out,
+      KidMode::Strip => {
+        // same public key and alg, no kid
+        let mut jwk = match out.jwk.try_okp_params() {
+          Ok(p) => Jwk::from_params(p.clone()),
+          Err(_) => panic!("harness: memstore generated a non-OKP key"),
+        };
+        if let Some(a) = out.jwk.alg() {
+          jwk.set_alg(a.to_owned());
+        }
+        JwkGenOutput::new(out.key_id, jwk)
+      }
+      KidMode::Set(k) => {
+        let mut jwk = out.jwk;
+        jwk.set_kid(k);
+        JwkGenOutput::new(out.key_id, jwk)
+      }
+    };
     Ok(out)
   }
 
@@ -293,6 +343,7 @@ impl Env {
       yield_k_delete: false,
       yield_i_delete: false,
       err_variant: 0,
+      kid_mode: KidMode::Keep,
     }));
     let st = Storage::new(
       FaultyJwk { inner: JwkMemStore::new(), ctl: ctl.clone() },
@@ -319,6 +370,9 @@ impl Env {
   }
   fn set_err_variant(&self, v: u8) {
     self.ctl.lock().unwrap().err_variant = v;
+  }
+  fn set_kid_mode(&self, m: KidMode) {
+    self.ctl.lock().unwrap().kid_mode = m;
   }
   /// Observes both stores through the *inner* (never failing, never logged) stores.
   fn snap(&self) -> StoreSnap {
@@ -378,6 +432,8 @@ fn all_scopes() -> Vec<MethodScope> {
 
 trait Doc: Clone + Send + JwkDocumentExt {
   const NAME: &'static str;
+  /// DIDs other than the document's own: [same method, other id], [other method / network, same id]
+  const FOREIGN: [&'static str; 2];
   fn empty() -> Self;
   fn core(&self) -> &CoreDocument;
   /// whatever the document type carries besides the core document
@@ -395,6 +451,7 @@ trait Doc: Clone + Send + JwkDocumentExt {
 
 impl Doc for CoreDocument {
   const NAME: &'static str = "CoreDocument";
+  const FOREIGN: [&'static str; 2] = ["did:bar:9oTherwPQGyvXCoihZq1BrbUjBRh2LuNxWiiqMkfAuSZr", "did:baz:Hyx62wPQGyvXCoihZq1BrbUjBRh2LuNxWiiqMkfAuSZr"];
   fn empty() -> Self {
     CoreDocument::builder(Object::new())
       .id(CoreDID::parse("did:bar:Hyx62wPQGyvXCoihZq1BrbUjBRh2LuNxWiiqMkfAuSZr").expect("did"))
@@ -426,6 +483,10 @@ impl Doc for CoreDocument {
 
 impl Doc for IotaDocument {
   const NAME: &'static str = "IotaDocument";
+  const FOREIGN: [&'static str; 2] = [
+    "did:iota:rms:0x1111111111111111111111111111111111111111111111111111111111111111",
+    "did:iota:smr:0xaabbccddeeff00112233445566778899aabbccddeeff00112233445566778899",
+  ];
   fn empty() -> Self {
     IotaDocument::new_with_id(
       IotaDID::parse("did:iota:rms:0xaabbccddeeff00112233445566778899aabbccddeeff00112233445566778899").expect("iota did"),
@@ -687,14 +748,19 @@ struct Meta {
   class: String,
   /// appended to a violation signature (e.g. ":dangling-ref-start"), empty normally
   sig_suffix: &'static str,
+  /// the document holds (or may hold) methods of other DIDs with the same fragment: a fragment-only query is
+  /// ambiguous there by design, so the oracle addresses the new method by its full DID URL
+  full_query: bool,
   detail: Value,
 }
+
+const DANGLING_SUFFIX: &str = ":dangling-ref-start";
 
 impl Cx {
   fn viol(&mut self, op: &str, outcome: &str, tags: &BTreeSet<String>, meta: &Meta, doc_name: &str, desc: String, case: Value) {
     // The dangling-reference start class has one root cause for every way an Ok result is unusable
     // (insert_method accepts an id already held by a reference): one signature, symptoms in the description.
-    let sig = if !meta.sig_suffix.is_empty() && outcome == "ok" {
+    let sig = if meta.sig_suffix == DANGLING_SUFFIX && outcome == "ok" {
       format!("{}-{}:method-unusable{}", op, outcome, meta.sig_suffix)
     } else {
       format!("{}-{}:{}{}", op, outcome, tags.iter().cloned().collect::<Vec<_>>().join("+"), meta.sig_suffix)
@@ -733,7 +799,9 @@ impl Cx {
     env.arm(plan.clone());
     let res = catch(|| block_on(doc.generate_method(&env.st, JwkMemStore::ED25519_KEY_TYPE, JwsAlgorithm::EdDSA, fragment, scope)));
     let log = env.disarm();
-    let base = json!({"op":"generate_method","scope":scope_key(scope),"fragment":fragment,"plan":plan_json(&plan),"calls":log_json(&log)});
+    let kid_mode = env.ctl.lock().unwrap().kid_mode.clone();
+    let base = json!({"op":"generate_method","scope":scope_key(scope),"fragment":fragment,"plan":plan_json(&plan),"calls":log_json(&log),
+      "key_store_sets_kid": match &kid_mode { KidMode::Keep => json!("thumbprint (in-memory store default)"), KidMode::Strip => json!("no kid member"), KidMode::Set(k) => json!(k) }});
     let res = match res {
       Ok(r) => r,
       Err(p) => {
@@ -819,7 +887,14 @@ impl Cx {
         // "#fragment" here and checked separately below (DIDUrlQuery takes a bare string starting with the DID
         // scheme for a full DID URL — a different root cause with its own signature).
         let did_prefixed = frag.starts_with("did");
-        let q: String = if did_prefixed { format!("#{frag}") } else { frag.clone() };
+        let q: String = if meta.full_query {
+          new_id.clone()
+        } else if did_prefixed {
+          format!("#{frag}")
+        } else {
+          frag.clone()
+        };
+        let did_prefixed = did_prefixed && !meta.full_query;
         let resolved: Option<VerificationMethod> = catch(|| doc.core().resolve_method(q.as_str(), Some(scope)).cloned()).ok().flatten();
         match &resolved {
           None => {
@@ -952,6 +1027,9 @@ impl Cx {
       pre_digest.as_ref().and_then(|dg| block_on(env.st.key_id_storage().inner.get_key_id(dg)).ok()).map(|k| k.as_str().to_owned());
     if let Some(dg) = &pre_digest {
       env.ctl.lock().unwrap().see_digest(dg);
+    }
+    if pre_method.is_some() && pre_digest.is_none() {
+      self.rep.inc("purge_target_undigestable");
     }
     let pre = snap(doc, env);
     let nrefs = pre.doc.refs.iter().filter(|(_, i)| *i == target_id).count();
@@ -1127,6 +1205,166 @@ fn plant_dangling<D: Doc>(doc: &D, frag: &str, rels: &[&str]) -> Option<D> {
   doc.with_core_json(v)
 }
 
+/// A method / service / reference of ANOTHER DID carrying the same fragment as the method the operation is about.
+/// `did:other#f` and `did:me#f` are different DID URLs; such documents are legal and deserialise.
+#[derive(Clone, Copy, Debug, PartialEq, Eq)]
+enum Namesake {
+  None,
+  /// foreign general-purpose method placed before every own method
+  GeneralBefore,
+  /// ... after every own method
+  GeneralAfter,
+  /// foreign method embedded in keyAgreement
+  Embedded,
+  /// foreign service
+  Service,
+  /// bare reference to the foreign method from authentication
+  Reference,
+}
+
+const NAMESAKES: [Namesake; 5] = [Namesake::GeneralBefore, Namesake::GeneralAfter, Namesake::Embedded, Namesake::Service, Namesake::Reference];
+
+impl Namesake {
+  fn name(self) -> &'static str {
+    match self {
+      Namesake::None => "none",
+      Namesake::GeneralBefore => "foreign-general-before",
+      Namesake::GeneralAfter => "foreign-general-after",
+      Namesake::Embedded => "foreign-embedded",
+      Namesake::Service => "foreign-service",
+      Namesake::Reference => "foreign-reference",
+    }
+  }
+}
+
+/// Splices the foreign namesake into the document through JSON (never through insert_method / the operations
+/// under test).
+fn plant_foreign<D: Doc>(doc: &D, frag: &str, kind: Namesake, which: usize) -> Option<D> {
+  if kind == Namesake::None {
+    return Some(doc.clone());
+  }
+  let foreign = D::FOREIGN[which % 2];
+  let fid = format!("{}#{}", foreign, frag);
+  let method = json!({
+    "id": fid, "controller": foreign, "type": "JsonWebKey2020",
+    "publicKeyJwk": {"kty":"OKP","alg":"EdDSA","crv":"Ed25519","x":"11qYAYKxCrfVS_7TyWQHOg7hcvPapiMlrwIaaPcHURo"}
+  });
+  let mut v = serde_json::to_value(doc.core()).ok()?;
+  let o = v.as_object_mut()?;
+  let (member, element, front) = match kind {
+    Namesake::GeneralBefore => (VM, method, true),
+    Namesake::GeneralAfter => (VM, method, false),
+    Namesake::Embedded => ("keyAgreement", method, false),
+    Namesake::Service => ("service", json!({"id": fid, "type": "LinkedDomains", "serviceEndpoint": "https://foreign.example/"}), false),
+    Namesake::Reference => ("authentication", json!(fid), false),
+    Namesake::None => unreachable!(),
+  };
+  let arr = o.entry(member.to_string()).or_insert_with(|| Value::Array(Vec::new())).as_array_mut()?;
+  if front {
+    arr.insert(0, element);
+  } else {
+    arr.push(element);
+  }
+  doc.with_core_json(v)
+}
+
+/// How the purge target relates to the stores. Only `Backed` is what generate_method produces; the others are
+/// methods that reached the document some other way (JSON, builder, insert_method) or stores that lost an entry.
+#[derive(Clone, Copy, Debug, PartialEq, Eq)]
+enum Backing {
+  Backed,
+  /// JWK method, its key is in the key store, the key-id store has no entry for it
+  JwkNoKeyId,
+  /// JWK method, key id recorded, the key itself is not in the key store
+  JwkNoKey,
+  /// publicKeyMultibase method (digestable) with a recorded key id and stored key
+  MultibaseBacked,
+  /// publicKeyMultibase method (digestable) the stores know nothing about
+  MultibaseUnbacked,
+  /// publicKeyMultibase that does not decode: no method digest can be computed
+  MultibaseBad,
+  /// publicKeyBase58 that does not decode
+  Base58Bad,
+  /// custom key material (blockchainAccountId): no method digest can be computed
+  Custom,
+}
+
+const UNUSUAL_BACKINGS: [Backing; 7] =
+  [Backing::JwkNoKeyId, Backing::JwkNoKey, Backing::MultibaseBacked, Backing::MultibaseUnbacked, Backing::MultibaseBad, Backing::Base58Bad, Backing::Custom];
+
+impl Backing {
+  fn name(self) -> &'static str {
+    match self {
+      Backing::Backed => "backed",
+      Backing::JwkNoKeyId => "jwk-without-keyid",
+      Backing::JwkNoKey => "jwk-keyid-without-key",
+      Backing::MultibaseBacked => "multibase-backed",
+      Backing::MultibaseUnbacked => "multibase-unbacked",
+      Backing::MultibaseBad => "multibase-undecodable",
+      Backing::Base58Bad => "base58-undecodable",
+      Backing::Custom => "custom-material",
+    }
+  }
+  fn class(self) -> &'static str {
+    match self {
+      Backing::Backed => "backed",
+      Backing::JwkNoKeyId | Backing::JwkNoKey | Backing::MultibaseUnbacked => "halfbacked",
+      Backing::MultibaseBacked => "nonjwk-backed",
+      Backing::MultibaseBad | Backing::Base58Bad | Backing::Custom => "undigestable",
+    }
+  }
+  fn sig_suffix(self) -> &'static str {
+    match self.class() {
+      "backed" => "",
+      "undigestable" => ":undigestable-target",
+      _ => ":target-not-from-generate",
+    }
+  }
+}
+
+const MB_GOOD: &str = r#""publicKeyMultibase":"z6MkiTBz1ymuepAQ4HEHYSF1H8quG5GLVVQR3djdX3mDooWp""#;
+const ED2018: &str = "Ed25519VerificationKey2018";
+
+/// Puts the purge target `did#frag` into `doc` (and whatever `backing` says into the stores).
+fn install_target<D: Doc>(doc: &mut D, env: &Env, frag: &str, scope: MethodScope, backing: Backing) -> bool {
+  let did = doc.did();
+  let parse = |material: &str, ty: &str| -> Option<VerificationMethod> {
+    VerificationMethod::from_json(&format!(r#"{{"id":"{did}#{frag}","controller":"{did}","type":"{ty}",{material}}}"#)).ok()
+  };
+  match backing {
+    Backing::Backed => install_method(doc, env, frag, scope),
+    Backing::JwkNoKeyId | Backing::JwkNoKey => {
+      let Ok(out) = block_on(env.st.key_storage().generate(JwkMemStore::ED25519_KEY_TYPE, JwsAlgorithm::EdDSA)) else { return false };
+      let Ok(m) = VerificationMethod::new_from_jwk(doc.core().id().clone(), out.jwk, Some(frag)) else { return false };
+      let Ok(dg) = MethodDigest::new(&m) else { return false };
+      if !doc.add_method(m, scope) {
+        return false;
+      }
+      if backing == Backing::JwkNoKey {
+        block_on(env.st.key_id_storage().insert_key_id(dg, out.key_id.clone())).is_ok()
+          && block_on(env.st.key_storage().inner.delete(&out.key_id)).is_ok()
+      } else {
+        true
+      }
+    }
+    Backing::MultibaseBacked => {
+      let Some(m) = parse(MB_GOOD, ED2018) else { return false };
+      let Ok(dg) = MethodDigest::new(&m) else { return false };
+      if !doc.add_method(m, scope) {
+        return false;
+      }
+      let Ok(out) = block_on(env.st.key_storage().generate(JwkMemStore::ED25519_KEY_TYPE, JwsAlgorithm::EdDSA)) else { return false };
+      block_on(env.st.key_id_storage().insert_key_id(dg, out.key_id)).is_ok()
+    }
+    Backing::MultibaseUnbacked => parse(MB_GOOD, ED2018).map(|m| doc.add_method(m, scope)).unwrap_or(false),
+    Backing::MultibaseBad => parse(r#""publicKeyMultibase":"z0OIl""#, ED2018).map(|m| doc.add_method(m, scope)).unwrap_or(false),
+    Backing::Base58Bad => parse(r#""publicKeyBase58":"0OIl""#, ED2018).map(|m| doc.add_method(m, scope)).unwrap_or(false),
+    Backing::Custom => parse(r#""blockchainAccountId":"eip155:1:0xab16a96d359ec26a11e2c2b3d8f8b8942d5bfcdb""#, "EcdsaSecp256k1RecoveryMethod2020")
+      .map(|m| doc.add_method(m, scope))
+      .unwrap_or(false),
+  }
+}
+
 /// Runs `run` for every subset of the call universe, growing the universe with every call occurrence
 /// observed (so that the calls of undo paths get enumerated too). Returns (plans run, universe).
 fn enumerate_plans(mut run: impl FnMut(&BTreeSet<Call>) -> Log) -> (u64, Vec<Call>) {
@@ -1171,12 +1409,14 @@ enum GenClass {
   Clash(&'static str),
   /// start document holds references to did#fragment with no such method
   Dangling(Vec<&'static str>),
+  /// populated start document that also holds a method / service / reference of another DID with the fragment
+  Foreign(Namesake, usize),
 }
 
 #[derive(Clone, Debug)]
 enum Scenario {
-  Generate { scope: MethodScope, fragment: Option<&'static str>, class: GenClass, yield_delete: bool },
-  Purge { target: PurgeTarget, populated: bool, yield_mode: u8 },
+  Generate { scope: MethodScope, fragment: Option<&'static str>, class: GenClass, yield_delete: bool, kid: KidMode },
+  Purge { target: PurgeTarget, populated: bool, yield_mode: u8, backing: Backing, namesake: Namesake },
 }
 
 #[derive(Clone, Debug)]
@@ -1199,23 +1439,27 @@ fn frag_kind(f: Option<&str>) -> &'static str {
 
 fn scenario_kind(s: &Scenario) -> String {
   match s {
-    Scenario::Generate { class, fragment, .. } => format!(
-      "gen|{}|{}",
+    Scenario::Generate { class, fragment, kid, .. } => format!(
+      "gen|{}|{}|{}",
       match class {
         GenClass::FreshEmpty => "fresh-empty",
         GenClass::FreshPopulated => "fresh-populated",
         GenClass::Clash(_) => "clash",
         GenClass::Dangling(_) => "dangling",
+        GenClass::Foreign(..) => "foreign",
       },
-      frag_kind(*fragment)
+      frag_kind(*fragment),
+      kid.class()
     ),
-    Scenario::Purge { target, .. } => format!(
-      "purge|{}",
+    Scenario::Purge { target, backing, namesake, .. } => format!(
+      "purge|{}|{}|{}",
       match target {
         PurgeTarget::Embedded(_) => "embedded".to_string(),
         PurgeTarget::General(b) => format!("general{}", b.count_ones().min(2)),
         PurgeTarget::Absent => "absent".to_string(),
-      }
+      },
+      backing.class(),
+      if *namesake == Namesake::None { "alone" } else { "foreign" }
     ),
   }
 }
@@ -1229,45 +1473,128 @@ fn scenarios(thorough: bool) -> Vec<Scenario> {
           if yield_delete && !thorough && fragment != Some("key-1") {
             continue;
           }
-          v.push(Scenario::Generate { scope, fragment, class: class.clone(), yield_delete });
+          v.push(Scenario::Generate { scope, fragment, class: class.clone(), yield_delete, kid: KidMode::Keep });
         }
       }
     }
     for (cl, frag) in [(GenClass::Clash("general"), "m0"), (GenClass::Clash("embedded"), "e0"), (GenClass::Clash("service"), "svc"), (GenClass::Clash("nonjwk"), "#root")] {
-      v.push(Scenario::Generate { scope, fragment: Some(frag), class: cl, yield_delete: false });
+      v.push(Scenario::Generate { scope, fragment: Some(frag), class: cl, yield_delete: false, kid: KidMode::Keep });
     }
     for rels in [vec!["authentication"], vec!["keyAgreement", "capabilityInvocation"], RELS.iter().map(|(_, k)| *k).collect::<Vec<_>>()] {
-      v.push(Scenario::Generate { scope, fragment: Some("dang"), class: GenClass::Dangling(rels), yield_delete: false });
+      v.push(Scenario::Generate { scope, fragment: Some("dang"), class: GenClass::Dangling(rels), yield_delete: false, kid: KidMode::Keep });
+    }
+    // key stores that set no kid / their own kid on the generated public JWK, with and without an explicit fragment
+    for class in [GenClass::FreshEmpty, GenClass::FreshPopulated] {
+      for (fragment, kid) in [
+        (None, KidMode::Strip),
+        (Some("key-1"), KidMode::Strip),
+        (Some("#key-2"), KidMode::Strip),
+        (None, KidMode::Set("store-kid".into())),
+        (None, KidMode::Set("#hash-kid".into())),
+        (None, KidMode::Set("kid with space".into())),
+        (None, KidMode::Set("kid%zz".into())),
+        // kid equal to the fragment of an existing general method / embedded method / service (populated start only)
+        (None, KidMode::Set("m0".into())),
+        (None, KidMode::Set("e0".into())),
+        (None, KidMode::Set("svc".into())),
+        (Some("key-1"), KidMode::Set("store-kid".into())),
+        (Some("key-1"), KidMode::Set("m0".into())),
+      ] {
+        for yield_delete in [false, true] {
+          if yield_delete && !thorough && kid != KidMode::Strip {
+            continue;
+          }
+          v.push(Scenario::Generate { scope, fragment, class: class.clone(), yield_delete, kid: kid.clone() });
+        }
+      }
+    }
+    // the fragment is already used by a method / service / reference of ANOTHER DID in the document
+    for (i, ns) in NAMESAKES.iter().enumerate() {
+      for fragment in [Some("key-1"), Some("#key-2")] {
+        v.push(Scenario::Generate { scope, fragment, class: GenClass::Foreign(*ns, i), yield_delete: false, kid: KidMode::Keep });
+      }
+      v.push(Scenario::Generate { scope, fragment: None, class: GenClass::Foreign(*ns, i + 1), yield_delete: false, kid: KidMode::Set("key-1".into()) });
     }
   }
   for populated in [false, true] {
     for yield_mode in 0u8..3 {
       for (r, _) in RELS {
-        v.push(Scenario::Purge { target: PurgeTarget::Embedded(r), populated, yield_mode });
+        v.push(Scenario::Purge { target: PurgeTarget::Embedded(r), populated, yield_mode, backing: Backing::Backed, namesake: Namesake::None });
       }
       for bits in 0u8..32 {
-        v.push(Scenario::Purge { target: PurgeTarget::General(bits), populated, yield_mode });
+        v.push(Scenario::Purge { target: PurgeTarget::General(bits), populated, yield_mode, backing: Backing::Backed, namesake: Namesake::None });
       }
-      v.push(Scenario::Purge { target: PurgeTarget::Absent, populated, yield_mode });
+      v.push(Scenario::Purge { target: PurgeTarget::Absent, populated, yield_mode, backing: Backing::Backed, namesake: Namesake::None });
     }
+  }
+  let shapes = || {
+    let mut t: Vec<PurgeTarget> = RELS.iter().map(|(r, _)| PurgeTarget::Embedded(*r)).collect();
+    t.extend((0u8..32).map(PurgeTarget::General));
+    t
+  };
+  // targets that did not come from generate_method / stores that only half know the target
+  for backing in UNUSUAL_BACKINGS {
+    for populated in [false, true] {
+      for yield_mode in 0u8..(if thorough { 3 } else { 1 }) {
+        for target in shapes() {
+          v.push(Scenario::Purge { target, populated, yield_mode, backing, namesake: Namesake::None });
+        }
+      }
+    }
+  }
+  // a method / service / reference of another DID carries the target's fragment
+  for namesake in NAMESAKES {
+    for populated in [false, true] {
+      for yield_mode in 0u8..(if thorough { 3 } else { 1 }) {
+        for target in shapes() {
+          v.push(Scenario::Purge { target, populated, yield_mode, backing: Backing::Backed, namesake });
+        }
+      }
+    }
+    for backing in [Backing::JwkNoKeyId, Backing::JwkNoKey, Backing::MultibaseBacked, Backing::MultibaseBad, Backing::Custom] {
+      for target in [PurgeTarget::Embedded(MethodRelationship::Authentication), PurgeTarget::Embedded(MethodRelationship::KeyAgreement), PurgeTarget::General(0), PurgeTarget::General(0b00101), PurgeTarget::General(31)] {
+        v.push(Scenario::Purge { target, populated: true, yield_mode: 0, backing, namesake });
+      }
+    }
+    v.push(Scenario::Purge { target: PurgeTarget::Absent, populated: true, yield_mode: 0, backing: Backing::Backed, namesake });
   }
   v
 }
 
 fn run_scenario<D: Doc>(cx: &mut Cx, sc: &Scenario, idx: u64) {
   match sc {
-    Scenario::Generate { scope, fragment, class, yield_delete } => {
-      let (class_name, suffix): (String, &'static str) = match class {
+    Scenario::Generate { scope, fragment, class, yield_delete, kid } => {
+      let (class_name, mut suffix): (String, &'static str) = match class {
         GenClass::FreshEmpty => ("fresh-empty".into(), ""),
         GenClass::FreshPopulated => ("fresh-populated".into(), ""),
         GenClass::Clash(w) => (format!("clash-{w}"), ""),
-        GenClass::Dangling(r) => (format!("dangling-ref-start[{}]", r.len()), ":dangling-ref-start"),
+        GenClass::Dangling(r) => (format!("dangling-ref-start[{}]", r.len()), DANGLING_SUFFIX),
+        GenClass::Foreign(ns, w) => (format!("{}{}", ns.name(), w % 2), ":foreign-namesake"),
+      };
+      if suffix.is_empty() {
+        suffix = match kid {
+          KidMode::Keep => "",
+          KidMode::Strip => ":store-jwk-without-kid",
+          KidMode::Set(_) => ":store-chosen-kid",
+        };
+      }
+      // the fragment the new method will carry if the call succeeds (for planting a foreign namesake)
+      let expect_frag: String = match (fragment, kid) {
+        (Some(f), _) => f.trim_start_matches('#').to_owned(),
+        (None, KidMode::Set(k)) => k.trim_start_matches('#').to_owned(),
+        (None, _) => "key-1".to_owned(),
+      };
+      let kid_text = match kid {
+        KidMode::Keep => "keep".to_string(),
+        KidMode::Strip => "strip".to_string(),
+        KidMode::Set(k) => format!("set:{k}"),
       };
       let meta = Meta {
         origin: "exhaustive",
-        class: format!("{}|{}|frag={}|y{}", class_name, scope_key(*scope), frag_kind(*fragment), *yield_delete as u8),
+        class: format!("{}|{}|frag={}|y{}|kid={}", class_name, scope_key(*scope), frag_kind(*fragment), *yield_delete as u8, kid_text),
         sig_suffix: suffix,
-        detail: json!({"scenario": idx, "start_document": class_name, "dangling_in": match class { GenClass::Dangling(r) => json!(r), _ => Value::Null }}),
+        full_query: matches!(class, GenClass::Foreign(..)),
+        detail: json!({"scenario": idx, "start_document": class_name, "key_store_kid": kid_text, "dangling_in": match class { GenClass::Dangling(r) => json!(r), _ => Value::Null }}),
       };
       let mut setup_failed = false;
       let (n, universe) = enumerate_plans(|plan| {
@@ -1285,16 +1612,41 @@ fn run_scenario<D: Doc>(cx: &mut Cx, sc: &Scenario, idx: u64) {
               None => ok = false,
             }
           }
+          GenClass::Foreign(ns, which) => {
+            ok &= populate(&mut doc, &env);
+            match plant_foreign(&doc, &expect_frag, *ns, *which) {
+              Some(d) => doc = d,
+              None => ok = false,
+            }
+          }
         }
         if !ok {
           setup_failed = true;
           return Vec::new();
         }
         env.set_yield(*yield_delete, false);
+        env.set_kid_mode(kid.clone());
         let o = cx.run_generate(&env, &mut doc, *scope, *fragment, Plan::Set(plan.clone()), &meta);
+        env.set_kid_mode(KidMode::Keep);
         let nf = fired(&o.log).len();
         if nf < plan.len() {
           cx.rep.inc("plans_with_unfired_fault");
+        }
+        // vacuity counters for the new start classes
+        let tag = match (class, kid) {
+          (GenClass::Foreign(..), _) => Some("foreign_namesake"),
+          (_, KidMode::Strip) if fragment.is_none() => Some("kidless_nofragment"),
+          (_, KidMode::Strip) => Some("kidless_fragment"),
+          (_, KidMode::Set(_)) => Some("store_kid"),
+          _ => None,
+        };
+        if let Some(tag) = tag {
+          match o.kind {
+            Kind::Ok => cx.rep.inc(&format!("generate_ok:{tag}")),
+            Kind::ErrClean => cx.rep.inc(&format!("generate_err_clean:{tag}")),
+            Kind::ErrUndo => cx.rep.inc(&format!("generate_err_undo:{tag}")),
+            Kind::Violation => {}
+          }
         }
         o.log
       });
@@ -1305,7 +1657,7 @@ fn run_scenario<D: Doc>(cx: &mut Cx, sc: &Scenario, idx: u64) {
       }
       cx.rep.distinct("generate_universe", &universe.iter().map(call_name).collect::<Vec<_>>().join(","));
     }
-    Scenario::Purge { target, populated, yield_mode } => {
+    Scenario::Purge { target, populated, yield_mode, backing, namesake } => {
       let tname = match target {
         PurgeTarget::Embedded(r) => format!("embedded:{}", scope_key(MethodScope::VerificationRelationship(*r))),
         PurgeTarget::General(b) => format!("general:refs={}:{:05b}", b.count_ones(), b),
@@ -1313,9 +1665,11 @@ fn run_scenario<D: Doc>(cx: &mut Cx, sc: &Scenario, idx: u64) {
       };
       let meta = Meta {
         origin: "exhaustive",
-        class: format!("{}|pop{}|y{}", tname, *populated as u8, yield_mode),
-        sig_suffix: "",
-        detail: json!({"scenario": idx, "target": tname, "populated_document": populated, "yield_mode": yield_mode}),
+        class: format!("{}|pop{}|y{}|{}|{}", tname, *populated as u8, yield_mode, backing.name(), namesake.name()),
+        sig_suffix: if *namesake != Namesake::None { ":foreign-namesake" } else { backing.sig_suffix() },
+        full_query: *namesake != Namesake::None,
+        detail: json!({"scenario": idx, "target": tname, "populated_document": populated, "yield_mode": yield_mode,
+          "target_backing": backing.name(), "foreign_namesake": namesake.name(), "foreign_did": if *namesake != Namesake::None { json!(D::FOREIGN[(idx as usize / 2) % 2]) } else { Value::Null }}),
       };
       let mut setup_failed = false;
       let (n, universe) = enumerate_plans(|plan| {
@@ -1327,9 +1681,9 @@ fn run_scenario<D: Doc>(cx: &mut Cx, sc: &Scenario, idx: u64) {
           ok &= populate(&mut doc, &env);
         }
         match target {
-          PurgeTarget::Embedded(r) => ok &= install_method(&mut doc, &env, "tgt", MethodScope::VerificationRelationship(*r)),
+          PurgeTarget::Embedded(r) => ok &= install_target(&mut doc, &env, "tgt", MethodScope::VerificationRelationship(*r), *backing),
           PurgeTarget::General(bits) => {
-            ok &= install_method(&mut doc, &env, "tgt", MethodScope::VerificationMethod);
+            ok &= install_target(&mut doc, &env, "tgt", MethodScope::VerificationMethod, *backing);
             for (i, (r, _)) in RELS.iter().enumerate() {
               if (bits >> i) & 1 == 1 {
                 ok &= doc.attach("tgt", *r);
@@ -1337,6 +1691,12 @@ fn run_scenario<D: Doc>(cx: &mut Cx, sc: &Scenario, idx: u64) {
             }
           }
           PurgeTarget::Absent => {}
+        }
+        if ok && *namesake != Namesake::None {
+          match plant_foreign(&doc, "tgt", *namesake, idx as usize / 2) {
+            Some(d) => doc = d,
+            None => ok = false,
+          }
         }
         if !ok {
           setup_failed = true;
@@ -1346,6 +1706,15 @@ fn run_scenario<D: Doc>(cx: &mut Cx, sc: &Scenario, idx: u64) {
         let o = cx.run_purge(&env, &mut doc, "tgt", Plan::Set(plan.clone()), &meta);
         if fired(&o.log).len() < plan.len() {
           cx.rep.inc("plans_with_unfired_fault");
+        }
+        let tag = if *namesake != Namesake::None { Some("foreign_namesake") } else if *backing != Backing::Backed { Some(backing.class()) } else { None };
+        if let Some(tag) = tag {
+          match o.kind {
+            Kind::Ok => cx.rep.inc(&format!("purge_ok:{tag}")),
+            Kind::ErrClean => cx.rep.inc(&format!("purge_err_clean:{tag}")),
+            Kind::ErrUndo => cx.rep.inc(&format!("purge_err_undo:{tag}")),
+            Kind::Violation => {}
+          }
         }
         o.log
       });
@@ -1370,6 +1739,54 @@ fn history<D: Doc>(cx: &mut Cx, rng: &mut Rng, hid: u64) {
   if rng.bool() && !populate(&mut doc, &env) {
     cx.rep.inc("setup_failed");
     return;
+  }
+  // methods that did not come from generate_method (possible purge targets): (fragment, backing)
+  let mut statics: Vec<(String, Backing)> = Vec::new();
+  if rng.chance(1, 3) {
+    let mut ok = true;
+    for (i, backing) in UNUSUAL_BACKINGS.iter().enumerate() {
+      if !rng.chance(2, 3) {
+        continue;
+      }
+      let frag = format!("u{i}");
+      let general = rng.chance(2, 3);
+      let scope = if general { MethodScope::VerificationMethod } else { MethodScope::VerificationRelationship(RELS[rng.usize(5)].0) };
+      ok &= install_target(&mut doc, &env, &frag, scope, *backing);
+      if general {
+        for (r, _) in RELS {
+          if rng.chance(2, 5) {
+            ok &= doc.attach(&frag, r);
+          }
+        }
+      }
+      statics.push((frag, *backing));
+    }
+    if !ok {
+      cx.rep.inc("setup_failed");
+      return;
+    }
+    cx.rep.inc("histories_with_foreign_origin_methods");
+  }
+  // methods / services / references of other DIDs carrying fragments this history is going to use
+  let mut foreign = false;
+  if rng.chance(1, 3) {
+    let n = 1 + rng.usize(6);
+    for _ in 0..n {
+      let frag = match rng.below(8) {
+        0 if !statics.is_empty() => rng.pick(&statics).0.clone(),
+        1 => "m0".to_string(),
+        _ => format!("h{}", rng.usize(12)),
+      };
+      let kind = *rng.pick(&NAMESAKES);
+      // a second namesake of the same (DID, fragment) may be refused by the deserialiser: keep the document then
+      if let Some(d) = plant_foreign(&doc, &frag, kind, rng.usize(2)) {
+        doc = d;
+        foreign = true;
+      }
+    }
+    if foreign {
+      cx.rep.inc("histories_with_foreign_namesakes");
+    }
   }
   cx.rep.inc("histories");
   // (fragment, general-purpose?) of the storage-backed methods created in this history, creation order
@@ -1399,14 +1816,32 @@ fn history<D: Doc>(cx: &mut Cx, rng: &mut Rng, hid: u64) {
       } else {
         Some("svc".into())
       };
+      let kid = match rng.below(20) {
+        0 | 1 => KidMode::Strip,
+        2 | 3 => KidMode::Set(format!("k{step}")),
+        4 => KidMode::Set(if live.is_empty() { "m0".to_string() } else { rng.pick(&live).0.clone() }),
+        5 => KidMode::Set(format!("h{}", rng.usize(12))),
+        _ => KidMode::Keep,
+      };
       let clash = given.as_ref().map(|g| live.iter().any(|(f, _)| f == g) || doc.core().resolve_method(format!("#{g}").as_str(), None).is_some() || g == "svc").unwrap_or(false);
       let meta = Meta {
         origin: "history",
-        class: format!("{}|{}|{}", if clash { "maybe-clash" } else { "fresh" }, scope_key(scope), given.is_some()),
-        sig_suffix: "",
-        detail: json!({"history": hid, "step": step, "live_methods": live.len()}),
+        class: format!("{}|{}|{}|kid={}{}", if clash || kid.class() == "set" { "maybe-clash" } else { "fresh" }, scope_key(scope), given.is_some(), kid.class(), if foreign { "|foreign" } else { "" }),
+        sig_suffix: if foreign {
+          ":foreign-namesake"
+        } else {
+          match kid {
+            KidMode::Keep => "",
+            KidMode::Strip => ":store-jwk-without-kid",
+            KidMode::Set(_) => ":store-chosen-kid",
+          }
+        },
+        full_query: foreign,
+        detail: json!({"history": hid, "step": step, "live_methods": live.len(), "document_has_foreign_namesakes": foreign}),
       };
+      env.set_kid_mode(kid);
       let o = cx.run_generate(&env, &mut doc, scope, given.as_deref(), Plan::Mask(mask), &meta);
+      env.set_kid_mode(KidMode::Keep);
       cx.rep.inc("history_steps");
       match o.kind {
         Kind::Ok => {
@@ -1418,15 +1853,32 @@ fn history<D: Doc>(cx: &mut Cx, rng: &mut Rng, hid: u64) {
         Kind::ErrUndo | Kind::Violation => return,
       }
     } else if choice < 8 {
-      let (frag, idx) = if live.is_empty() || rng.chance(1, 10) { ("nope".to_string(), None) } else {
+      // target: a storage-backed method of this history, a method of foreign origin, or nothing at all
+      let pick_static = !statics.is_empty() && rng.chance(1, 4);
+      let (frag, idx, sidx) = if pick_static {
+        let i = rng.usize(statics.len());
+        (statics[i].0.clone(), None, Some(i))
+      } else if live.is_empty() || rng.chance(1, 10) {
+        ("nope".to_string(), None, None)
+      } else {
         let i = rng.usize(live.len());
-        (live[i].0.clone(), Some(i))
+        (live[i].0.clone(), Some(i), None)
       };
+      let backing = sidx.map(|i| statics[i].1).unwrap_or(Backing::Backed);
       let meta = Meta {
         origin: "history",
-        class: format!("{}", if idx.is_some() { if live[idx.unwrap()].1 { "general" } else { "embedded" } } else { "absent" }),
-        sig_suffix: "",
-        detail: json!({"history": hid, "step": step, "live_methods": live.len()}),
+        class: format!(
+          "{}{}",
+          match (idx, sidx) {
+            (Some(i), _) => if live[i].1 { "general".to_string() } else { "embedded".to_string() },
+            (_, Some(_)) => format!("foreign-origin:{}", backing.name()),
+            _ => "absent".to_string(),
+          },
+          if foreign { "|foreign" } else { "" }
+        ),
+        sig_suffix: if foreign { ":foreign-namesake" } else { backing.sig_suffix() },
+        full_query: foreign,
+        detail: json!({"history": hid, "step": step, "live_methods": live.len(), "target_backing": backing.name(), "document_has_foreign_namesakes": foreign}),
       };
       let o = cx.run_purge(&env, &mut doc, &frag, Plan::Mask(mask), &meta);
       cx.rep.inc("history_steps");
@@ -1434,6 +1886,9 @@ fn history<D: Doc>(cx: &mut Cx, rng: &mut Rng, hid: u64) {
         Kind::Ok => {
           if let Some(i) = idx {
             live.remove(i);
+          }
+          if let Some(i) = sidx {
+            statics.remove(i);
           }
         }
         Kind::ErrClean => {}
@@ -1445,10 +1900,12 @@ fn history<D: Doc>(cx: &mut Cx, rng: &mut Rng, hid: u64) {
       if !gens.is_empty() {
         let f = gens[rng.usize(gens.len())].0.clone();
         let (r, _) = RELS[rng.usize(5)];
+        // by full id: a fragment-only query is ambiguous next to foreign namesakes
+        let q = format!("{}#{}", doc.did(), f);
         if rng.chance(3, 4) {
-          doc.attach(&f, r);
+          doc.attach(&q, r);
         } else {
-          doc.detach(&f, r);
+          doc.detach(&q, r);
         }
       }
     }
@@ -1465,7 +1922,7 @@ fn main() {
     "case = one generate_method / purge_method call on a fresh or evolving (document, key store, key-id store) under one fault plan; \
      exhaustive part: for every scenario (doc type x scope x fragment given/#given/from-kid x start document fresh/populated/clashing/dangling-reference, \
      resp. doc type x target embedded-in-each-relationship / general with each of the 32 reference subsets / absent x populated x poll order) every subset \
-     of the call occurrences observed in any run of that scenario (operation + undo path) is injected; random part: seeded histories of generate/purge/attach \
+     of the call occurrences observed in any run of that scenario (operation + undo path) is injected; the same grids are repeated for key stores      returning a public JWK without / with their own kid, for purge targets not produced by generate_method (JWK method without key id / without key,      multibase backed / unbacked / undecodable, base58 undecodable, custom material) and for documents holding a method / service / reference of      another DID with the target's fragment; random part: seeded histories of generate/purge/attach \
      steps with an n-th-call fault mask. non-trivial+distinct = (doc type, op, scenario class, set of faults that actually fired, call sequence, outcome)",
   );
 
